@@ -547,7 +547,8 @@ def correspondence(run):
                   ("one evaluation = one recorded history (evaluator answers, choices, noise) on which the regenerated "
                    "analyze_tree is evaluated inside Coq, phase by phase, and its final tree compared node for node with the "
                    "implementation's (visits, value, v_zero, moves, positions exact; child priors within 1e-5)"),
-                  [{k: v for k, v in m.items() if k != "spec"} for m in cs.metas[:2]], dict(cats[fam]), label=fam)
+                  [{k: v for k, v in m.items() if k != "spec"} for m in cs.metas[:2]], dict(cats[fam]),
+                  label=(fam if fam != "search" else "regenerated-search"))
         for meta in failing[:3]:
             run.violation(f"gen-{fam}-{c08.spec_key(meta['spec'])}",
                           {"clause": f"the function generated from the source ({fam}) and the implementation disagree on a "
